@@ -1005,6 +1005,13 @@ func checkRemoveComposite(c *Ctx, rule string) {
 			calls++
 		}
 	})
+	follows := false
+	eachInstr(fn, func(in ssa.Instruction) {
+		if cc := callOf(in); cc != nil && calleeName(cc) == "Stat" {
+			follows = true
+		}
+	})
+	c.check(!follows, rule, "Remove looks at the name, not through it", p.Pos(fn.Pos()), "Lstat", "Remove decides which error to report with Stat, which follows a symlink: for a dangling link the lookup fails with not-exist and replaces the removal's error")
 	c.check(calls == 2, rule, "Remove tries the file, then the directory", p.Pos(fn.Pos()), "one removeFile and one RemoveDirectory", fmt.Sprintf("%d removal calls in Remove", calls))
 	n := 0
 	for _, rl := range returnLeaves(fn, 0) {
@@ -1021,7 +1028,7 @@ func checkRemoveComposite(c *Ctx, rule string) {
 					if isNil && (s == "removeFile" || s == "RemoveDirectory") {
 						succeeded = true
 					}
-					if !isNil && s == "Stat" {
+					if !isNil && (s == "Stat" || s == "Lstat") {
 						statFailed = true
 					}
 				}
@@ -1046,11 +1053,12 @@ func checkRemoveComposite(c *Ctx, rule string) {
 		case "nil":
 			c.check(succeeded, rule, key, pos, "nil only after one of the two removals succeeded", "Remove returns nil although neither removal succeeded")
 		case "removeFile":
-			c.check(!succeeded && (isDirF || sameErr), rule, key, pos, "the file error for a non-directory (or when both errors agree)", "Remove reports the file-removal error on a path where the directory removal succeeded or the name is a directory")
+			// also what is reported when the name cannot be looked at: the removal's own error, not the lookup's
+			c.check(!succeeded && (isDirF || sameErr || statFailed), rule, key, pos, "the file error for a non-directory (or when both errors agree, or the name cannot be examined)", "Remove reports the file-removal error on a path where the directory removal succeeded or the name is a directory")
 		case "RemoveDirectory":
 			c.check(!succeeded && isDirT, rule, key, pos, "the directory error for a directory", "Remove reports the directory-removal error for something that is not a directory (or after a success)")
-		case "Stat":
-			c.check(statFailed, rule, key, pos, "Stat's own error when it fails", "Remove returns Stat's error value on a path where Stat succeeded")
+		case "Stat", "Lstat":
+			c.bad(rule, key, pos, "when both removals failed Remove returns the error of its look at the name instead of a removal's error: for a dangling symlink named with a trailing slash (or on a read-only file system) it answers not-exist where the removal failed for another reason (os.Remove reports the removal's error)")
 		default:
 			c.und(rule, key, pos, "result of Remove not understood: "+rl.v.String())
 		}
@@ -1071,6 +1079,34 @@ func checkRemoveAllComposite(c *Ctx, rule string) {
 	}
 	c.looked("(*Client).RemoveAll")
 	pathP := fn.Params[1]
+	// the path worked on: the parameter, or what is left of it after trailing slashes were cut off
+	isPath := func(v ssa.Value) bool {
+		ls := leavesOfIface(v)
+		if len(ls) == 0 {
+			return false
+		}
+		for _, l := range ls {
+			switch x := l.(type) {
+			case *ssa.Parameter:
+				if x != pathP {
+					return false
+				}
+			case *ssa.Slice:
+				ok := false
+				for _, l2 := range leavesOfIface(x.X) {
+					if l2 == ssa.Value(pathP) {
+						ok = true
+					}
+				}
+				if !ok || x.Low != nil {
+					return false
+				}
+			default:
+				return false
+			}
+		}
+		return true
+	}
 	isChild := func(v ssa.Value) bool {
 		// (path + "/") + x.Name()
 		a, ok := v.(*ssa.BinOp)
@@ -1078,7 +1114,7 @@ func checkRemoveAllComposite(c *Ctx, rule string) {
 			return false
 		}
 		b, ok := a.X.(*ssa.BinOp)
-		if !ok || b.Op != token.ADD || b.X != ssa.Value(pathP) {
+		if !ok || b.Op != token.ADD || !isPath(b.X) {
 			return false
 		}
 		if s, ok := constString(b.Y); !ok || s != "/" {
@@ -1094,10 +1130,17 @@ func checkRemoveAllComposite(c *Ctx, rule string) {
 			return
 		}
 		nm := calleeName(&call.Call)
-		if nm != "RemoveAll" && nm != "Remove" {
+		if nm != "RemoveAll" && nm != "Remove" && nm != "RemoveDirectory" {
 			return
 		}
 		arg := call.Call.Args[len(call.Call.Args)-1]
+		if nm == "RemoveDirectory" {
+			// the attempt on the directory itself before it is listed (judged below); as a final step it is a Remove
+			if !isPath(arg) {
+				c.bad(rule, "RemoveAll step RemoveDirectory", p.Pos(call.Pos()), "RemoveDirectory is applied to something other than path")
+			}
+			return
+		}
 		conds := edgeConds(call.Block(), nil)
 		entryIsDir := 0
 		for cv, truth := range conds {
@@ -1120,12 +1163,13 @@ func checkRemoveAllComposite(c *Ctx, rule string) {
 			c.check(entryIsDir == -1, rule, key, p.Pos(call.Pos()), "direct removal of path/Name() for a non-directory entry", "a directory entry is removed directly (fails when it is not empty) or the removal is not selected by the entry's IsDir()")
 		default:
 			remSelf++
-			c.check(arg == ssa.Value(pathP) && !inLoop(call), rule, key, p.Pos(call.Pos()), "Remove(path) after the children", "the final removal is not applied to path itself")
+			c.check(isPath(arg) && !inLoop(call), rule, key, p.Pos(call.Pos()), "Remove(path) after the children", "the final removal is not applied to path itself")
 		}
 	})
 	c.check(recur >= 1 && remChild >= 1 && remSelf >= 1, rule, "RemoveAll steps", p.Pos(fn.Pos()), "recursion, child removal, self removal", fmt.Sprintf("%d recursive, %d child and %d self removals found", recur, remChild, remSelf))
 	src := errSources(fn, 0)
 	want := map[string]bool{"call:Stat": true, "call:ReadDir": true, "call:RemoveAll": true, "call:Remove": true}
+	checkRemoveAllLikeOs(c, rule, fn, isPath)
 	// the first probe must not follow a symlink: RemoveAll(link to a directory) removes the link, like os.RemoveAll;
 	// with Stat it empties the directory the link points to
 	c.check(src["call:Lstat"] && !src["call:Stat"], rule, "RemoveAll probes with Lstat", p.Pos(fn.Pos()), "c.Lstat(path)",
@@ -1139,6 +1183,48 @@ func checkRemoveAllComposite(c *Ctx, rule string) {
 		if src[alt] {
 			delete(src, alt)
 			src["call:Remove"] = true
+		}
+	}
+	// a constant nil is a result too — legitimate exactly where a removal of path itself has just succeeded
+	if src["nil"] {
+		okNil := true
+		// returns of a value that was tested non-nil on the way (`if firstErr != nil { return firstErr }`) cannot
+		// deliver the nil that the variable started with
+		testedNonNil := map[*ssa.BasicBlock]bool{}
+		eachInstr(fn, func(in ssa.Instruction) {
+			if r, ok := in.(*ssa.Return); ok && isReturn(in) && len(r.Results) == 1 {
+				for cv, truth := range edgeConds(r.Block(), nil) {
+					if bo, ok := cv.(*ssa.BinOp); ok && isNilConst(bo.Y) && bo.X == r.Results[0] && (bo.Op == token.NEQ) == truth {
+						if ph, ok := r.Results[0].(*ssa.Phi); ok {
+							testedNonNil[ph.Block()] = true
+						}
+					}
+				}
+			}
+		})
+		for _, rl := range returnLeaves(fn, 0) {
+			if !isNilConst(rl.v) {
+				continue
+			}
+			if rl.pred != nil && testedNonNil[rl.block] {
+				continue
+			}
+			removed := false
+			for cv, truth := range edgeConds(rl.block, rl.pred) {
+				if bo, ok := cv.(*ssa.BinOp); ok && isNilConst(bo.Y) && (bo.Op == token.EQL) == truth {
+					for _, l := range leavesOf(bo.X) {
+						if l.Kind == leafCallResult && (calleeName(l.Call) == "RemoveDirectory" || calleeName(l.Call) == "Remove") && isPath(l.Call.Args[len(l.Call.Args)-1]) {
+							removed = true
+						}
+					}
+				}
+			}
+			if !removed {
+				okNil = false
+			}
+		}
+		if okNil {
+			delete(src, "nil")
 		}
 	}
 	same := len(src) == len(want)
@@ -1277,4 +1363,83 @@ func checkGlobComposite(c *Ctx, rule string) {
 	})
 	c.check(verbatim && !rebuilt, rule, "Glob returns an existing literal name as given", p.Pos(fn.Pos()), "[]string{pattern}",
 		"for a pattern without metacharacters Glob returns Join(dir, Lstat(pattern).Name()) instead of the pattern: \"dir/\" comes back as \"dir/dir\", which does not exist")
+}
+
+// checkRemoveAllLikeOs: three points on which Client.RemoveAll has to behave like os.RemoveAll, each found by a
+// differential run against package os (F54):
+//   - it works on the name: trailing slashes are cut off before the first look at it ("link/" makes the file system
+//     follow a link to a directory, and the target's contents were deleted);
+//   - a directory is first simply removed, and listed only if that fails (an empty directory without read permission
+//     can be removed but not listed);
+//   - an entry that cannot be removed does not end the walk: the loop over the entries has no way out but its end,
+//     and the first error is reported afterwards (os "removes everything it can").
+func checkRemoveAllLikeOs(c *Ctx, rule string, fn *ssa.Function, isPath func(ssa.Value) bool) {
+	p := c.P
+	pathP := fn.Params[1]
+	// (1) the first look
+	var probe *ssa.Call
+	eachInstr(fn, func(in ssa.Instruction) {
+		if call, ok := in.(*ssa.Call); ok && (calleeName(&call.Call) == "Lstat" || calleeName(&call.Call) == "Stat") && probe == nil {
+			probe = call
+		}
+	})
+	if probe != nil {
+		arg := probe.Call.Args[len(probe.Call.Args)-1]
+		trimmed := false
+		if arg != ssa.Value(pathP) && isPath(arg) {
+			// some edge of it is a slice of the parameter that drops its last byte, taken where that byte is '/'
+			for _, l := range leavesOfIface(arg) {
+				if sl, ok := l.(*ssa.Slice); ok && sl.High != nil {
+					for cv, truth := range edgeConds(sl.Block(), nil) {
+						if bo, ok := cv.(*ssa.BinOp); ok && bo.Op == token.EQL && truth {
+							if k, ok := constInt(bo.Y); ok && k == '/' {
+								trimmed = true
+							}
+						}
+					}
+				}
+			}
+		}
+		for _, l := range leavesOf(arg) {
+			if l.Kind == leafCallResult && (callIs(l.Call, "strings.TrimRight") || callIs(l.Call, "strings.TrimSuffix")) {
+				trimmed = true
+			}
+		}
+		c.check(trimmed, rule, "RemoveAll works on the name (trailing slashes cut off)", p.Pos(probe.Pos()), "path without trailing slashes",
+			"RemoveAll looks at path as given: for \"link/\", a symlink to a directory named with a trailing slash, the file system follows the link, the target directory is emptied and the call then fails (os.RemoveAll removes only the link)")
+	}
+	// (2) simple removal before listing
+	var list *ssa.Call
+	eachInstr(fn, func(in ssa.Instruction) {
+		if call, ok := in.(*ssa.Call); ok && calleeName(&call.Call) == "ReadDir" {
+			list = call
+		}
+	})
+	if list != nil {
+		first := false
+		eachInstr(fn, func(in ssa.Instruction) {
+			if call, ok := in.(*ssa.Call); ok && (calleeName(&call.Call) == "RemoveDirectory" || calleeName(&call.Call) == "Remove") && isPath(call.Call.Args[len(call.Call.Args)-1]) && dominates(call, list) {
+				first = true
+			}
+		})
+		c.check(first, rule, "RemoveAll tries to remove a directory before it lists it", p.Pos(list.Pos()), "RemoveDirectory(path), ReadDir only if that fails",
+			"RemoveAll lists every directory before removing it: an empty directory without read permission makes it fail with permission denied where os.RemoveAll removes it")
+	}
+	// (3) the walk goes on after a failure
+	for _, l := range loopsOf(fn) {
+		walks := false
+		for b := range l.blocks {
+			for _, in := range b.Instrs {
+				if cc := callOf(in); cc != nil && (calleeName(cc) == "RemoveAll" || calleeName(cc) == "Remove") {
+					walks = true
+				}
+			}
+		}
+		if !walks {
+			continue
+		}
+		leaves := loopEarlyExit(l)
+		c.check(!leaves, rule, "RemoveAll removes everything it can", p.Pos(l.head.Instrs[0].Pos()), "no return inside the loop over the entries; the first error is reported after it",
+			"RemoveAll returns from inside the loop over the entries: the first entry that cannot be removed ends the walk and the rest of the tree is left (os.RemoveAll removes everything it can and reports the first error)")
+	}
 }
